@@ -145,6 +145,16 @@ theorem kdt_pairs_one_to_one (D : List (List Dist)) (inds : List (List Nat)) (ny
     obtain ⟨c', hm', _, _, hv', _⟩ := finalOf_some hfq
     exact Prod.ext (hinv.inj c c' p.1 q.1 hm hm' (by rw [hv, hv', h2])) h2
 
+/-- A one-to-one pairing can use no row of either set twice, so it never has more pairs than the smaller
+    set has rows: `len(x_inds) = len(y_inds) ≤ min(nx, ny)` — for EVERY table `(D, inds)`. -/
+theorem kdt_count_le_min (D : List (List Dist)) (inds : List (List Nat)) (ny K : Nat) :
+    (kdtMatch D inds ny K).1.length ≤ min inds.length ny := by
+  have hx := kdt_x_distinct_inrange D inds ny K
+  have h1 := length_le_of_nodup_lt inds.length _ hx.2.1 hx.2.2
+  have h2 := length_le_of_nodup_lt ny _ (kdt_y_injective D inds ny K) (kdt_y_inrange D inds ny K)
+  rw [← kdt_len_eq] at h2
+  omega
+
 /-- No row of the marker matrix ever holds two marks: the test `sum(II[r, :]) == 1` of the winner
     extraction can only fail with a sum of 0 ("rows without a unique admissible neighbour are omitted"
     — they are exactly the rows that were never marked or whose mark sits on padding). -/
